@@ -108,6 +108,7 @@ void AsmContext::init()
   flags                  = 0;
 
   address           = 0;
+  segment           = SEGMENT_CODE;
   instruction_count = 0;
   code_count        = 0;
   data_count        = 0;
